@@ -1,6 +1,6 @@
-import ChythonModel.Py.IntSet
+import ChythonModel.Proofs.C19Scan
 /-!
-# C19 — the probe sequence never leaves the table
+# C19 — the probe sequence never leaves the table; a lookup can only fail by running out of fuel
 -/
 namespace ChythonModel.Py.IntSet
 
@@ -34,5 +34,35 @@ theorem PS.nth_valid (mask : Nat) (k : Int) : ∀ n : Nat, (PS.nth mask k n).Val
   induction n with
   | zero => exact PS.start_valid mask k
   | succ n ih => exact PS.next_valid ih
+
+/-- In a table of `mask + 1` slots a lookup answers `none` only when it ran out of fuel: each of the `f` slots it
+visited held a dummy or another key. -/
+theorem look_none_only_by_fuel {t : Array Slot} {mask : Nat} {k : Int} (hs : t.size = mask + 1) :
+    ∀ (f n : Nat), look t mask k f (PS.nth mask k n) = none →
+      ∀ m, m < f → t[(PS.nth mask k (n + m)).idx]? = some Slot.dummy ∨
+        ∃ k', k' ≠ k ∧ t[(PS.nth mask k (n + m)).idx]? = some (Slot.active k') := by
+  intro f
+  induction f with
+  | zero => intro n _ m hm; omega
+  | succ f ih =>
+    intro n h m hm
+    have hin : (PS.nth mask k n).idx < t.size := by
+      have := PS.idx_le (PS.nth_valid mask k n); omega
+    rcases slot_cases k t[(PS.nth mask k n).idx]? with he | he | he | ⟨k', hk, he⟩ | he
+    · rw [Array.getElem?_eq_getElem hin] at he; simp at he
+    · rw [look_empty _ _ _ _ _ he] at h; simp at h
+    · rw [look_hit _ _ _ _ _ he] at h; simp at h
+    · rw [look_miss _ _ _ _ _ he hk] at h
+      cases m with
+      | zero => exact Or.inr ⟨k', hk, he⟩
+      | succ m =>
+        have := ih (n + 1) h m (by omega)
+        rwa [show n + 1 + m = n + (m + 1) by omega] at this
+    · rw [look_dummy _ _ _ _ _ he] at h
+      cases m with
+      | zero => exact Or.inl he
+      | succ m =>
+        have := ih (n + 1) h m (by omega)
+        rwa [show n + 1 + m = n + (m + 1) by omega] at this
 
 end ChythonModel.Py.IntSet
